@@ -115,6 +115,9 @@ struct Cur {
 extern Cur g_cur;
 void AbortInvocation(int why);  // 1 = hang (ninja would block forever), 2 = step horizon
 
+/// Redirects fd 1/2 to the capture file; the harness' own reports go to fd 100 (old stdout).
+void InitCapture();
+
 uint64_t Fnv(const std::string& s);
 std::string Hex64(uint64_t v);
 
